@@ -221,23 +221,24 @@ type e4HookAction struct {
 
 type e4Env struct {
 	// callbacks may still run after the case returned: they append here (under mu), the result gets a copy
-	handled  []e4Handled
-	onErrors []e4OnErr
-	pushed   *int64 // reconnect loop passed "tasks pushed" this many times
-	hookMu   sync.Mutex
-	pending  []*e4HookAction // actions waiting for the next passage of the loop through their site
-	active   int64           // ConnState(Active) callbacks
-	ctx      context.Context
-	c        e4Case
-	log      *vLog
-	b        *vbroker
-	d        *vdialer
-	rc       *RetryClient
-	cli      ReconnectClient
-	res      *e4Result
-	mu       sync.Mutex
-	curH     int32
-	connCh   chan struct{}
+	handled    []e4Handled
+	onErrors   []e4OnErr
+	pushed     *int64 // reconnect loop passed "tasks pushed" this many times
+	barrierWhy string // why the idle barrier last said no (under mu; diagnostics only)
+	hookMu     sync.Mutex
+	pending    []*e4HookAction // actions waiting for the next passage of the loop through their site
+	active     int64           // ConnState(Active) callbacks
+	ctx        context.Context
+	c          e4Case
+	log        *vLog
+	b          *vbroker
+	d          *vdialer
+	rc         *RetryClient
+	cli        ReconnectClient
+	res        *e4Result
+	mu         sync.Mutex
+	curH       int32
+	connCh     chan struct{}
 }
 
 func (e *e4Env) handler(n int) Handler {
@@ -272,6 +273,7 @@ func (e *e4Env) activity() int64 {
 func (e *e4Env) idleBarrier(goal func() bool) bool {
 	bc := e.d.currentConn()
 	if bc == nil {
+		e.setBarrierWhy("no open transport")
 		return false
 	}
 	// the newest transport must itself be an established connection (a transport that was only dialled
@@ -285,21 +287,30 @@ func (e *e4Env) idleBarrier(goal func() bool) bool {
 	}
 	bc.stMu.Unlock()
 	if !isActive {
+		e.setBarrierWhy("newest open transport never became Active")
 		return false
 	}
 	a0, p0 := atomic.LoadInt64(&e.active), atomic.LoadInt64(e.pushed)
-	if a0 != p0 || a0 == 0 || !goal() {
+	if a0 != p0 || a0 == 0 {
+		e.setBarrierWhy(fmt.Sprintf("Active callbacks %d, tasks-pushed hook %d", a0, p0))
+		return false
+	}
+	if !goal() {
+		e.setBarrierWhy("goal not reached (queued work or an unacknowledged request)")
 		return false
 	}
 	ch := make(chan struct{})
 	if err := e.rc.pushTask(e.ctx, func(context.Context, *BaseClient) { close(ch) }); err != nil {
+		e.setBarrierWhy("sentinel task refused: " + err.Error())
 		return false
 	}
 	select {
 	case <-ch:
 	case <-time.After(2 * time.Second):
+		e.setBarrierWhy("sentinel task not run within 2 s")
 		return false
 	}
+	e.setBarrierWhy("state changed while the sentinel ran")
 	if atomic.LoadInt64(&e.active) != a0 || atomic.LoadInt64(e.pushed) != p0 {
 		return false
 	}
@@ -307,6 +318,13 @@ func (e *e4Env) idleBarrier(goal func() bool) bool {
 		return false
 	}
 	return goal()
+}
+
+// setBarrierWhy remembers why the idle barrier last said no (diagnostics only: it is printed with a stuck verdict).
+func (e *e4Env) setBarrierWhy(w string) {
+	e.mu.Lock()
+	e.barrierWhy = w
+	e.mu.Unlock()
 }
 
 // settle waits until the client is idle: nothing queued and every accepted QoS>=1 /
@@ -1063,7 +1081,10 @@ func e4RunBody(c e4Case, started chan<- *e4Env) (res *e4Result) {
 	done, stuck := e.settle(45*time.Second, true)
 	res.Quiesced, res.Stuck = done, stuck
 	if !done {
-		res.Dump = vGoroutineDump()
+		e.mu.Lock()
+		why := e.barrierWhy
+		e.mu.Unlock()
+		res.Dump = "idle barrier last refused because: " + why + "\n" + vGoroutineDump()
 	}
 	res.Stats = rc.Stats()
 	b.mu.Lock()
